@@ -23,10 +23,10 @@ IPV6_SRP = (2 << 16) | 73
 EVPN = (25 << 16) | 70
 RTC = (1 << 16) | 132
 # families whose NLRI decoders are in the Coq model since round 3
-MODELLED_R3 = [EVPN, RTC, IPV4_SRP, IPV6_SRP, IPV4_FS, IPV6_FS, IPV4_FSVPN, IPV6_FSVPN]
+MODELLED_R3 = [EVPN, RTC, IPV4_SRP, IPV6_SRP, IPV4_FS, IPV6_FS, IPV4_FSVPN, IPV6_FSVPN, IPV4_MUP, IPV6_MUP, LS]
 ALL_MODELLED = MODELLED + MODELLED_R3
 # still behind the oracle contract (harness only)
-OTHERS = [IPV4_MUP, IPV6_MUP, LS]
+OTHERS = []
 
 def be(n, w):
     return [(n >> (8 * (w - 1 - i))) & 0xff for i in range(w)]
@@ -228,3 +228,29 @@ def fs_prefix6(ty, bits, off, addr):
 def flowspec(comps, rd=None, nlen=None, force_two=None):
     body = (list(rd) if rd is not None else []) + [b for c in comps for b in c]
     return B(fs_len(len(body) if nlen is None else nlen, force_two) + body)
+
+
+def mup(rt, body, arch=1, blen=None):
+    return B([arch] + be(rt, 2) + [(len(body) if blen is None else blen) & 0xff] + list(body))
+
+def mup_isd(plen, prefix, rd=RD0): return list(rd) + [plen] + list(prefix)
+def mup_dsd(addr, rd=RD0): return list(rd) + list(addr)
+def mup_t1st(plen, prefix, teid, qfi, ea, sa=None, rd=RD0, ea_len=None, sa_len=None):
+    out = list(rd) + [plen] + list(prefix) + be(teid, 4) + [qfi] + [(len(ea) * 8) if ea_len is None else ea_len] + list(ea)
+    if sa is None: return out + [0 if sa_len is None else sa_len]
+    return out + [(len(sa) * 8) if sa_len is None else sa_len] + list(sa)
+def mup_t2st(ea_len, ea, teid_octets, rd=RD0): return list(rd) + [ea_len] + list(ea) + list(teid_octets)
+
+
+def ls_tlv(t, value, length=None):
+    return be(t, 2) + be((len(value) if length is None else length) & 0xffff, 2) + list(value)
+
+def ls_node_desc(subtlvs, container=256, length=None):
+    body = [b for t in subtlvs for b in t]
+    return ls_tlv(container, body, length)
+
+def ls_nlri(ty, body, length=None):
+    return B(be(ty, 2) + be((len(body) if length is None else length) & 0xffff, 2) + list(body))
+
+def ls_head(proto=2, ident=0x0102030405060708):
+    return [proto] + be(ident, 8)
